@@ -312,6 +312,17 @@ pub struct ExploreCfg {
 	/// stop after this many executions (cap, reported)
 	pub max_execs: u64,
 	pub time_cap: Duration,
+	/// a cap hit is not reported (the caller retries with a bound)
+	pub soft_cap: bool,
+}
+
+/// Explore without a deviation bound if the whole tree has at most `cap` executions, else with `fallback_bound`.
+pub fn explore_auto<S: Scenario>(s: &S, rep: &Reporter, cap: u64, fallback_bound: usize, recheck_every: u64, time_cap: Duration) -> ExploreStats {
+	let st = explore(s, &ExploreCfg { bound: None, recheck_every, max_execs: cap, time_cap, soft_cap: true }, rep);
+	if st.exhausted {
+		return st;
+	}
+	explore(s, &ExploreCfg { bound: Some(fallback_bound), recheck_every, max_execs: cap * 20, time_cap: time_cap * 4, soft_cap: false }, rep)
 }
 
 #[derive(Debug, Default, Clone)]
@@ -467,9 +478,17 @@ pub fn explore<S: Scenario>(s: &S, cfg: &ExploreCfg, rep: &Reporter) -> ExploreS
 		divergences: divergences.load(Ordering::Relaxed),
 		violations: nviol.load(Ordering::Relaxed),
 	};
+	if !st.exhausted && cfg.soft_cap {
+		// the caller falls back to a bounded exploration; executions of this attempt are still counted
+		rep.traces.fetch_add(st.execs, Ordering::Relaxed);
+		rep.add_evals(st.execs, 0, "capped-unbounded-attempt");
+		return st;
+	}
 	rep.states.fetch_add(st.nodes, Ordering::Relaxed);
 	rep.transitions.fetch_add(st.transitions, Ordering::Relaxed);
 	rep.traces.fetch_add(st.execs, Ordering::Relaxed);
+	// distinct_nontrivial for SCHED = executions with pairwise distinct observable outcomes
+	rep.add_evals(st.execs, st.outcomes as u64, &format!("{}", name.split(':').next().unwrap_or("sched")));
 	if !st.exhausted {
 		rep.not_exhaustive(&format!("{name}: capped after {} executions (bound {:?})", st.execs, cfg.bound));
 	}
@@ -486,4 +505,21 @@ pub fn explore<S: Scenario>(s: &S, cfg: &ExploreCfg, rep: &Reporter) -> ExploreS
 pub fn replay<S: Scenario>(s: &S, choices: &[usize]) -> Exec<Verdict> {
 	install_hooks();
 	run_one(s, choices, true)
+}
+
+/// Object-safe view used by `verif replay`.
+pub trait DynScenario {
+	fn dyn_name(&self) -> String;
+	fn dyn_replay(&self, choices: &[usize]) -> (Vec<String>, Vec<String>, Vec<(String, String)>, String, Vec<usize>);
+}
+
+impl<S: Scenario> DynScenario for S {
+	fn dyn_name(&self) -> String {
+		self.name()
+	}
+	fn dyn_replay(&self, choices: &[usize]) -> (Vec<String>, Vec<String>, Vec<(String, String)>, String, Vec<usize>) {
+		let ex = replay(self, choices);
+		let ns = ex.decisions.iter().map(|d| d.n).collect();
+		(ex.trace, ex.labels, ex.obs.violations, ex.obs.outcome, ns)
+	}
 }
